@@ -232,6 +232,7 @@ class FakeProcess(object):
         self.exitcode = None
         self.tasks_handled = 0
         self.killed_by = None
+        self.ignores_sigterm = False
         self.daemon = False
 
     def start(self):
@@ -283,6 +284,11 @@ class FakeProcess(object):
         self.sim.join(self.task, timeout)
 
     def terminate(self):
+        # SIGTERM: a process that handles or ignores it (graceful-shutdown handler installed by the service) survives
+        self.sim.prim_point('process.terminate')
+        if self.ignores_sigterm:
+            self.sim.run.probe('sigterm_ignored')
+            return
         self.kill()
 
     def kill(self):
